@@ -30,6 +30,9 @@ func init() {
 		ruleLoadBody(c, "C01-R4", "C01-R4", "C01-R4", "C01-R4", "C01-R4")
 		ruleUpdateLoop(c, "C01-R4")
 		ruleCaptureBeforeProject(c, "C01-R5")
+		c.Rule("C01-R6", "PUBLISH: the stale-marker cutoff is off unless the sweeper is enabled; the id reported as synced is bounded by what LMDB recorded (else a local write is never uploaded and replicas cannot converge)")
+		ruleCutoffProvenance(c, "C01-R6")
+		ruleSyncedIdBound(c, "C01-R6")
 	})
 
 	register("C02", propMeta{
@@ -312,5 +315,60 @@ func init() {
 		ruleRunOnceExit(c, "C16-R5")
 		ruleCleanDisappeared(c, "C16-R5")
 		ruleLimiter(c, "C16-R6")
+	})
+}
+
+func init() {
+	register("C20", propMeta{
+		Explanation: staticNote + "Extracts the encode and decode tables of the dupsort hack and interprets them (no code is run) on representative (key, value) pairs chosen from the statement (zero bytes next to the separator, values longer than the room left, boundary lengths, maximal keys): (R1) constant relations 511 / 255 / 4 / 1; (R2/R3) decode(encode(kv)) == kv on every cell, shadow key length <= 511, empty/oversized keys and malformed shadow keys refused, no index out of range; (R4) while encoding a DBI an equal or descending shadow key is refused; (R5) the transform is recorded when dumping and validated before merging (table); (R6) encode iff dupsort in the capture, decode+EmptyPut iff dupsort in the projection; native schema excludes the hack.",
+		NotDecided:  "Reversibility over all byte strings (only the representative cells are interpreted); the full mirror cycle on real LMDB.",
+		Assumptions: []string{"the representative lengths cover the boundaries of the extracted conditions (every constant in the tables is hit on both sides)"},
+	}, func(c *Check) {
+		c.Rule("C20-R1", "CONSTANTS")
+		c.Rule("C20-R2", "ROUND-TRIP on the extracted encode/decode tables, refusals, bounds")
+		c.Rule("C20-R4", "UNIQUE/ORDER")
+		c.Rule("C20-R5", "TRANSFORM recorded and validated")
+		c.Rule("C20-R6", "PAIRING in the mirror passes")
+		ruleDupSortCodec(c, "C20-R1", "C20-R2")
+		ruleDupSortUnique(c, "C20-R4")
+		ruleReadDBIFlags(c, "C20-R5", "C20-R5")
+		ruleValidateTransformTable(c, "C20-R5")
+		ruleLoadBody(c, "C20-R5", "C20-R5", "C20-R5", "C20-R5", "C20-R5")
+		ruleMainToShadow(c, "C20-R6", "C20-R6", "C20-R6")
+		ruleShadowToMain(c, "C20-R6", "C20-R6")
+		ruleEmptyPut(c, "C20-R6")
+	})
+
+	register("C11", propMeta{
+		Explanation: staticNote + "Decides the mirror's decision tables and plumbing: (R1) capture table: an unchanged application value keeps its entry and timestamp, a changed or new one is stamped with the detection time; (R2) a key missing from the application DBI becomes a marker (Clean), via the IterUpdate table; (R3) the projection writes exactly the shadow value and deletes the key of a marker (reports the known empty-value defect); (R4) key order: IterUpdate derives integerKey from the DBI's MDB_INTEGERKEY flag, the comparator is selected by it, shadow DBIs are created with that flag from the application DBI (both creation sites); (R5) the sortedness check never rejects a valid first key; (R6) the detection time is taken inside the write transaction; (R7) both passes visit every non-private DBI; raw-read mode is restored after a dump.",
+		NotDecided:  "The mirror's extensional equality with a reference over all contents; changes made while the syncer is down.",
+		Assumptions: []string{"instances share one monotone clock (documented)"},
+	}, func(c *Check) {
+		c.Rule("C11-R1", "CAPTURE-TABLE")
+		c.Rule("C11-R2", "CLEAN-TABLE / ITERUPDATE-TABLE")
+		c.Rule("C11-R3", "PROJECTION (T-PLAIN)")
+		c.Rule("C11-R4", "KEY-ORDER")
+		c.Rule("C11-R5", "FIRST-KEY / SORTED-CHECK")
+		c.Rule("C11-R6", "DETECTION-TIME")
+		c.Rule("C11-R7", "MIRROR-LOOPS")
+		c.Rule("C11-R8", "RAWREAD-RESTORED")
+		t := BuildMergeTable(c, "syncer.(*NativeIterator).Merge")
+		if t != nil {
+			u := buildUniverse(t, c.Tier == "thorough")
+			ruleCapture(c, "C11-R1", t, u)
+		}
+		ruleCleanTable(c, "C11-R2")
+		ruleIterUpdateTable(c, "C11-R2")
+		rulePlainIterator(c, "C11-R3", "C11-R3")
+		ruleIntegerKeyFlag(c, "C11-R4")
+		ruleIterBoth(c, "C11-R4", "C11-R5", "C11-R4")
+		ruleCmpInt(c, "C11-R4")
+		ruleShadowCreateMask(c, "C11-R4")
+		ruleCaptureBeforeProject(c, "C11-R6")
+		ruleSendDump(c, "C11-R7", "C11-R6", "C11-R7")
+		ruleMainToShadow(c, "C11-R7", "C11-R7", "C11-R4")
+		ruleShadowToMain(c, "C11-R7", "C11-R7")
+		ruleSyncedIdBound(c, "C11-R7")
+		ruleRawReadRestored(c, "C11-R8")
 	})
 }
